@@ -354,3 +354,18 @@ SPECS["C08"] = dict(
         dict(id="datagrams", run="^TestC08Datagrams$", quick=dict(shards=6, checks=150, timeout=600, shrinktime=30), thorough=dict(shards=6, checks=4000, timeout=3400, shrinktime=300)),
     ]) for tg in ["", "poll_opt"]],
 )
+
+SPECS["C19"] = dict(
+    level="exploration",
+    technique="stateful property-based testing (rapid) of the control API against a state x call -> allowed-results table, with calls from several goroutines before start, while running, during shutdown and after it",
+    rule="a case is a server configuration, calls on the zero-value handle, 1..4 goroutines each with up to 5 calls on the running engine (Validate, CountConnections, Dup, DupListener right/wrong, Register with conn / closed conn / address / unreachable address / nothing, "
+         "EventLoop.Register/Enroll/Execute with nil and valid arguments), a Stop with a live or an already expired context, 0..3 goroutines with calls fired right after the request (one connection may take 700 ms in OnClose), and calls after the shutdown; "
+         "oracle: the allowed errors per state, CountConnections -1 outside the running state, one result per Register/Enroll that is a usable connection (a byte echoes) or an error, runnables run once, Stop(nil) only when every opened connection has been closed and OnShutdown ran, Stop(expired) returns the context error and Run still returns, a second Stop reports in-shutdown; "
+         "non-trivial = a case with calls issued between the shutdown request and its completion; distinct = distinct case",
+    assumptions=ENGINE_ASSUME + ["Engine.Register is not combined with Round-Robin load balancing (documented data race)", "client handles report the empty-engine error by construction and are not exercised here"],
+    overlay=["verifx/c19"] + FX_OVERLAY,
+    max_parallel=12,
+    jobs=engine_jobs("c19", "./verifx/c19", [
+        dict(id="control", run="^TestC19ControlAPI$", quick=dict(shards=8, checks=25, timeout=600, shrinktime=30), thorough=dict(shards=4, checks=2500, timeout=3400, shrinktime=300)),
+    ]),
+)
